@@ -5,15 +5,17 @@ VARIABLES stage, cfg
 vars == <<stage, cfg>>
 Val(i, c, t, salt) == ((7 * i + 3 * c + 5 * t * t + t + 4 * salt * (t + i)) % 11) - 3
 Panel(lens, ncol, salt) == [i \in DOMAIN lens |-> [c \in 1..ncol |-> [t \in 1..lens[i] |-> Val(i, c, t, salt)]]]
-NoP == [L |-> 0, fill |-> 0, lo |-> 0, hi |-> 0, k |-> 1, w |-> 1, method |-> "", const |-> 0, iv |-> << >>]
+NoP == [L |-> 0, fill |-> 0, lo |-> 0, hi |-> 0, k |-> 1, w |-> 1, method |-> "", const |-> 0, iv |-> << >>, fit |-> 0]
 Init == stage = "op" /\ cfg = [op |-> "", p |-> NoP, X |-> << >>]
 LenSets == UNION { [1..n -> 3..MaxT] : n \in 1..MaxInst }
 PickOp ==
     /\ stage = "op"
-    /\ \/ \E lens \in LenSets, nc \in 1..2, salt \in 0..1, L \in {0, MaxT, MaxT + 2}, fill \in {0, 7} :
-            cfg' = [op |-> "pad", p |-> [NoP EXCEPT !.L = L, !.fill = fill], X |-> Panel(lens, nc, salt)]
-       \/ \E lens \in LenSets, nc \in 1..2, salt \in 0..1, lh \in {<<0, 0>>, <<2, 0>>, <<3, 0>>, <<1, 3>>, <<2, 3>>} :
-            cfg' = [op |-> "truncate", p |-> [NoP EXCEPT !.lo = lh[1], !.hi = lh[2]], X |-> Panel(lens, nc, salt)]
+    /\ \/ \E lens \in LenSets, nc \in 1..2, salt \in 0..1, L \in {0, MaxT, MaxT + 2}, fill \in {0, 7}, f \in {0, MaxT + 1} :
+            /\ (f # 0 => L = 0)                       \* fitted on another, longer panel: only matters without a pad_length
+            /\ cfg' = [op |-> "pad", p |-> [NoP EXCEPT !.L = L, !.fill = fill, !.fit = f], X |-> Panel(lens, nc, salt)]
+       \/ \E lens \in LenSets, nc \in 1..2, salt \in 0..1, lh \in {<<0, 0>>, <<2, 0>>, <<3, 0>>, <<1, 3>>, <<2, 3>>}, f \in {0, 2} :
+            /\ (f # 0 => lh = <<0, 0>>)                \* fitted on another panel with a shorter series
+            /\ cfg' = [op |-> "truncate", p |-> [NoP EXCEPT !.lo = lh[1], !.hi = lh[2], !.fit = f], X |-> Panel(lens, nc, salt)]
        \/ \E lens \in LenSets, nc \in 1..2, salt \in 0..1, L \in 1..(MaxT + 1) :
             cfg' = [op |-> "interpolate", p |-> [NoP EXCEPT !.L = L], X |-> Panel(lens, nc, salt)]
        \/ \E n \in 1..MaxInst, len \in 3..MaxT, nc \in 1..2, salt \in 0..1, o \in {"tabularize", "concat", "row_mean"} :
